@@ -473,7 +473,7 @@ func genGLines(c *Ctx, r *rand.Rand, maxEntries int) (lines []string, nl string)
 	if g.plain {
 		c.Count("g.plain")
 	}
-	switch r.IntN(5) {
+	switch r.IntN(4) {
 	case 0:
 		g.nl = "\r\n"
 		c.Count("g.nl.crlf")
